@@ -40,6 +40,22 @@ VALUES = [
 ]
 
 
+def thorough_values():
+    """neighbourhoods of every boundary as ints, floats and their decimal strings"""
+    out = list(VALUES)
+    for b in (0, 2 ** 31, -(2 ** 31), 2 ** 32, 2 ** 53, -(2 ** 53), 2 ** 63, 2 ** 64, 10 ** 15, 10 ** 22):
+        for d in range(-3, 4):
+            n = b + d
+            out += [n, float(n), str(n), str(float(n)), " %d" % n, "%d " % n, -n]
+    for e in (-400, -324, -323, -308, -1, 0, 1, 15, 16, 22, 23, 308, 309, 400):
+        out += ["1e%d" % e, "-1e%d" % e]
+        try:
+            out.append(float("1e%d" % e))
+        except OverflowError:
+            pass
+    return out
+
+
 def make(v):
     return v() if isinstance(v, type) and v in (object, Bad) else v
 
@@ -166,7 +182,7 @@ EXTRA_LITERALS = [(FloatV("1e400"), float("inf")), (FloatV("-1e400"), float("-in
 
 
 def shards(tier, seed):
-    return [("direct", s) for s in SCALARS] + [("engine", s) for s in SCALARS[:5]]
+    return [("direct", s, tier) for s in SCALARS] + [("engine", s, tier) for s in SCALARS[:5]]
 
 
 _SDL = """
@@ -192,7 +208,10 @@ def scalar_object(eng, scalar):
 
 
 def run_shard(item):
-    mode, scalar = item
+    mode, scalar = item[0], item[1]
+    global VALUES
+    if len(item) > 2 and item[2] == "thorough" and len(VALUES) < 300:
+        VALUES = thorough_values()
     out = {"counts": {"evaluations": 0, "triples": 0}, "tables": {"l1": {}, "l2": {}}, "sets": {}, "samples": [],
            "violations": [], "machinery": []}
     eng = _engine()
@@ -376,4 +395,4 @@ def finish(agg, tier):
 
 def replay(rec):
     r = rec["replay"]
-    return run_shard((r["mode"], r["scalar"]))["violations"]
+    return run_shard((r["mode"], r["scalar"], "thorough"))["violations"]
